@@ -226,6 +226,28 @@ Proof.
 Qed.
 Print Assumptions c18_md_dispatch.
 
+(* format_register (the model renders in Gallina, compared byte for byte with the code's String):
+   "0x" followed by lower-case hexadecimal digits that denote exactly the value the unchecked read
+   returns - at least 2*size_of::<Register>() digits, exactly that many when the value fits the
+   Register type; like get_register_always it is an UNCHECKED accessor: on a string that is not an
+   accepted name it reaches unreachable!() (the checked path is get_register, see
+   c18_unknown_absent_no_panic) *)
+Theorem c18_format_register : forall c, In c all_contexts -> forall rf n,
+  (In n (accepted c) ->
+     exists s, format_register c rf n = Ret (48 :: 120 :: s) /\
+       (0 <= rf_get rf (loc_of c n) ->
+          hex_val s = rf_get rf (loc_of c n) /\ (Z.to_nat (register_size c * 2) <= length s)%nat /\
+          (rf_get rf (loc_of c n) < 2 ^ ct_width c -> length s = Z.to_nat (register_size c * 2)))) /\
+  (~ In n (accepted c) -> format_register c rf n = Panic 1).
+Proof. intros c Hc. exact (format_register_spec c (all_facts c Hc)). Qed.
+Print Assumptions c18_format_register.
+Example c18_nonvacuous_format :
+  format_register ctx_x86 (fun _ _ => 48879) [101; 105; 112] = Ret [48; 120; 48; 48; 48; 48; 98; 101; 101; 102] /\
+  hex_val [48; 48; 48; 48; 98; 101; 101; 102] = 48879 /\
+  format_register ctx_amd64 (fun _ _ => 18446744073709551615) n_rip =
+    Ret [48; 120; 102; 102; 102; 102; 102; 102; 102; 102; 102; 102; 102; 102; 102; 102; 102; 102].
+Proof. repeat split; vm_compute; reflexivity. Qed.
+
 (* F-C18a: the SPARC table as it was before the fix (same get/set arms, no memoize_register
    and no register_is_valid arms): "o6" is accepted by set_register and read back by
    get_register_always, but the checked accessor reports it absent, and validity of g_r14
